@@ -412,6 +412,51 @@ pub fn check_paths(h: &History, obs: &mut Obs) -> Vec<Violation> {
             }
         }
     }
+    // write_video(pts, ..) is write_video_with_dts(pts, pts, ..): the same recording through either
+    // entry point is the same file - as submitted, and re-timed onto an NTSC grid far from zero
+    // (k + i * 1001/60000 s: every other frame sits on a half tick, where two ways of converting
+    // seconds to ticks part company)
+    let only_plain = h.ops.iter().filter(|o| o.is_video()).all(|o| matches!(o, Op::WriteVideo { .. }));
+    if only_plain && h.ops.iter().any(|o| o.is_video()) {
+        let hh = crate::util::fnv(h.brief().as_bytes());
+        for variant in 0..2 {
+            let mut a = h.clone();
+            if variant == 1 {
+                if h.cfg.audio_effective().is_some() {
+                    continue;
+                }
+                let basis = 3600.0 * (1 + hh % 9) as f64;
+                let per = [1001.0 / 60000.0, 1001.0 / 24000.0, 1001.0 / 30000.0][(hh / 16 % 3) as usize];
+                let mut i = 0u32;
+                for op in a.ops.iter_mut() {
+                    if let Op::WriteVideo { pts, .. } = op {
+                        *pts = (basis + i as f64 * per).to_bits();
+                        i += 1;
+                    }
+                }
+            }
+            let ra = reference(&a);
+            if ra.results.iter().any(|x| x.is_panic()) {
+                continue;
+            }
+            let mut b = a.clone();
+            for op in b.ops.iter_mut() {
+                if let Op::WriteVideo { pts, data, key } = op.clone() {
+                    *op = Op::WriteVideoDts { pts, dts: pts, data, key };
+                }
+            }
+            let rb = reference(&b);
+            let same_verdicts = ra.results.len() == rb.results.len() && ra.results.iter().zip(rb.results.iter()).all(|(x, y)| x.is_ok() == y.is_ok());
+            if !same_verdicts || ra.bytes != rb.bytes {
+                out.push(v(
+                    format!("write_video-vs-write_video_with_dts|{}", if variant == 1 { "ntsc-grid" } else { "as-submitted" }),
+                    format!("{} ; same timestamps through write_video and write_video_with_dts(pts, pts): verdicts equal = {}, files equal = {}", a.brief(), same_verdicts, ra.bytes == rb.bytes),
+                ));
+                break;
+            }
+            obs.count("write_video_vs_with_dts_pairs", 1);
+        }
+    }
     // AudioCodec::None vs no audio
     if h.cfg.audio.is_none() || h.cfg.audio.as_ref().map(|a| a.kind == A_NONE).unwrap_or(false) {
         let mut h2 = h.clone();
